@@ -446,6 +446,26 @@ def extras(run, seed, idx, flip, bits, n, mods):
                       1e-12 / cur["wavelength"])
             run.count("parameter_change_history_steps")
 
+    # ---- d3. the peak-to-grain assignment route: refinegrains.assignlabels recomputes g-vectors with the compiled code for
+    # each grain's own position; the g-vectors it leaves behind are those of the last grain presented
+    if idx % 2 == 0:
+        from ImageD11 import refinegrains, grain as grainmod
+        o = refinegrains.refinegrains(tolerance=0.05, OmFloat=False)
+        o.parameterobj = parameters.parameters(**p)
+        cfa = columnfile.colfile_from_dict({"sc": sc.copy(), "fc": fc.copy(), "omega": om.copy(),
+                                            "labels": np.zeros(n) - 2, "drlv2": np.ones(n)})
+        o.scannames = ["scan"]
+        o.scandata["scan"] = cfa
+        tg = [np.array(t, float), np.array([t[1], -t[2], t[0]], float) * 0.5]
+        o.grainnames = [0, 1]
+        for k_, tk in enumerate(tg):
+            o.grains[(k_, "scan")] = grainmod.grain(np.eye(3) * (4.0 + k_), translation=tk.copy())
+        o.assignlabels(quiet=True)
+        refa = geom.forward(p, sc, fc, om, tuple(tg[-1]))
+        for j, nm in enumerate(("gx", "gy", "gz")):
+            c.chk("refinegrains.assignlabels (compiled route)", nm, o.gv[:, j], refa["g"][:, j], g_tol)
+        run.count("assignlabels_route_cases")
+
     # ---- e. empty inputs: every route returns empty results of the right shape
     if idx % 4 == 0:
         e = np.zeros(0)
@@ -558,7 +578,7 @@ def check(run, replay=None):
         pixel_lut_case(run, seed, i, mods)
     for cn, k in (("integer_input_cases", 50), ("updateGV_calls", 200), ("get_local_gv_calls", 50), ("reset_histories", 50),
                   ("empty_input_cases", 10), ("xyz_layout_cases", 50), ("pixel_lut_cases", 10),
-                  ("parameter_change_history_steps", 300)):
+                  ("parameter_change_history_steps", 300), ("assignlabels_route_cases", 30)):
         run.require_counter(cn, k)
     run.extra["classes_planned"] = len(set(plan))
     for nthr in (2, 4, 8):
